@@ -623,11 +623,15 @@ impl Wal {
             .flush()
             .wrap_err("failed to flush WAL segment before truncate")?;
 
+        #[cfg(kahflane_turdb_verif)]
+        crate::verif::point("wal_truncate");
         segment
             .writer
             .get_mut()
             .set_len(0)
             .wrap_err("failed to truncate WAL segment file")?;
+        #[cfg(kahflane_turdb_verif)]
+        crate::verif::synced(segment.writer.get_ref());
 
         // set_len does not move the file cursor; without the rewind the next frame would be
         // written at the old end of file, behind a hole of zero bytes.
@@ -989,6 +993,8 @@ impl Wal {
         let current_sequence = segment_guard.sequence;
         let old_path = segment_guard.path.clone();
 
+        #[cfg(kahflane_turdb_verif)]
+        crate::verif::point("wal_rotate");
         let new_sequence = current_sequence + 1;
         let new_segment_path = self.dir.join(format!("wal.{:06}", new_sequence));
         let new_segment = WalSegment::create(&new_segment_path, new_sequence)
@@ -1094,6 +1100,8 @@ impl WalSegment {
 
         let header_bytes = header.as_bytes();
 
+        #[cfg(kahflane_turdb_verif)]
+        crate::verif::point("wal_frame");
         self.writer
             .write_all(header_bytes)
             .wrap_err("failed to write WAL frame header")?;
@@ -1103,13 +1111,19 @@ impl WalSegment {
             .wrap_err("failed to write WAL frame page data")?;
 
         if sync {
+            #[cfg(kahflane_turdb_verif)]
+            crate::verif::point("wal_flush");
             self.writer
                 .flush()
                 .wrap_err("failed to flush WAL buffer")?;
+            #[cfg(kahflane_turdb_verif)]
+            crate::verif::point("wal_sync");
             self.writer
                 .get_mut()
                 .sync_data()
                 .wrap_err("failed to sync WAL frame to disk")?;
+            #[cfg(kahflane_turdb_verif)]
+            crate::verif::synced(self.writer.get_ref());
         }
 
         self.offset += (WAL_FRAME_HEADER_SIZE + PAGE_SIZE) as u64;
@@ -1119,9 +1133,26 @@ impl WalSegment {
 
     pub fn sync_to_disk(&mut self) -> Result<()> {
         use std::io::Write;
+        #[cfg(kahflane_turdb_verif)]
+        crate::verif::point("wal_flush");
         self.writer
             .flush()
             .wrap_err("failed to flush WAL buffer")?;
+        #[cfg(kahflane_turdb_verif)]
+        crate::verif::point("wal_sync");
+        #[cfg(kahflane_turdb_verif)]
+        {
+            let r = self
+                .writer
+                .get_mut()
+                .sync_data()
+                .wrap_err("failed to sync WAL segment to disk");
+            if r.is_ok() {
+                crate::verif::synced(self.writer.get_ref());
+            }
+            return r;
+        }
+        #[cfg(not(kahflane_turdb_verif))]
         self.writer
             .get_mut()
             .sync_data()
